@@ -47,7 +47,13 @@ def main():
     if "--replay" in sys.argv:
         replay_main(ck, sys.argv[sys.argv.index("--replay") + 1])
     pr = proof_part(ck, "C09")
-    lr = LocRun(ck, []); lr.build()
+    # Two different errors can lie on one ancestor walk (a rule id met twice along two paths, a parent that does not exist, a loop).
+    # The real code reports the duplicate while it walks, the model after the walk: which of the errors is reported first may differ.
+    WALK_ERRS = ("dupId", "notFound", "loop", "noProvider")
+    def err_of(o):
+        return o.get("err") if isinstance(o, dict) else None
+    precedence = lambda c, k, op, mo, io: err_of(io) in WALK_ERRS and err_of(mo) in WALK_ERRS and "dupId" in (err_of(io), err_of(mo))
+    lr = LocRun(ck, [("doc:ancestor-error-precedence", precedence)]); lr.build()
     n = 400 if not ck.thorough else 8000
     gens = [gen_case(ck.rng, ck.thorough) for _ in range(n)]
     cases = [{"kind": "loc", "state": st, "locs": l, "ops": copy.deepcopy(o)} for l, o in gens for st in ("indexed", "linear")]
@@ -87,6 +93,14 @@ def main():
     lr.finish_cov("forests of 2-5 locations whose parent lists change over time (self loops, indirect loops, missing parents included), histories of facts/rules/flags spread over them, "
                   "observed through inherited and local searches, queries, events, ListRules and GetParents at every location; both states; every answer compared with the Lean model of "
                   "DoAncestors (depth-first, own location last, AncestorLoop on a path that comes back); on a sample, snapshots of all locations around each op check the frame property directly")
+    for f in known_findings("C09"):
+        a = run_cases(lr.drv, [f["witness"]])[0]
+        last = (a.get("outs") or [{}])[-1]
+        n_found = len(last.get("ok") or [])
+        if n_found == f.get("observed_count"):
+            ck.known_finding("%s: %s (the fact of the shared ancestor is returned %d times)" % (f["id"], f["what"], n_found))
+        else:
+            ck.note("known finding %s no longer reproduces (%d results)" % (f["id"], n_found))
     proof_verdict(ck, pr)
     ck.finish()
 
